@@ -337,6 +337,12 @@ def step (s : S) (line : String) : S × String :=
     | some none => (s, "fault")
     | some (some f) => (s, s!"ok f={",".intercalate (f.map fnum)}")
     | none => (s, s!"erange f={",".intercalate (f0.map fnum)}")
+  else if op == "dsqcpy" then
+    match s.d with
+    | none => (s, "bad-op")
+    | some d => match Alphabet.dsqcpy d s.L with
+      | some c => (s, s!"ok dup={hx c}")
+      | none => (s, "fault")
   else if op == "dsqdup" then
     let Lk := if arg? ws "L" == some "unknown" then none else some s.L
     match Alphabet.dsqdup s.d Lk with
